@@ -2163,5 +2163,10 @@ pub mod verif_hooks {
         pub fn residue(&self) -> NarseseOptions<Budget, Term, Punctuation, Stamp, Truth> {
             self.state.mid_result.clone()
         }
+
+        /// 解析状态中除「格式」与「中间解析结果」外的全部字段：（解析环境，环境长度，头索引）
+        pub fn buffer_view(&self) -> (Vec<char>, UIntPrecision, UIntPrecision) {
+            (self.state.env.clone(), self.state.len_env, self.state.head)
+        }
     }
 }
